@@ -36,6 +36,7 @@
 /* an entry that delivers more than this is not read further (data_status -77): nested compressed
  * streams can expand a few hundred bytes into an effectively endless entry */
 #define DATA_CAP (24ULL << 20)
+#define MAX_RETRIES 64	/* consecutive ARCHIVE_RETRY answers a client puts up with */
 
 struct src {
 	unsigned char *data; size_t len, pos;
@@ -304,7 +305,7 @@ static void run_case(val *c)
 		if (r == ARCHIVE_FAILED) { o_int(0); o_int(0); o_int(0); o_close(); continue; }
 		{
 			unsigned long long h = 1469598103934665603ULL, total = 0;
-			int ds = ARCHIVE_OK;
+			int ds = ARCHIVE_OK, retries = 0;
 			unsigned char *dbuf = NULL; size_t dcap = 0;
 			if (cmode == 0 || cmode == 2) {
 				size_t bs = (cmode == 0) ? (carg ? carg : 1) : 4096;
@@ -313,7 +314,12 @@ static void run_case(val *c)
 				while (want > 0) {
 					size_t ask = bs < want ? bs : want;
 					la_ssize_t n = archive_read_data(a, buf, ask);
-					if (n < 0) { ds = (int)n; if (!status_ok(ds)) flags |= 4; if (n == ARCHIVE_RETRY) continue; break; }
+					/* a client that retries, but not for ever: archive_read_data answers a block whose
+					 * offset lies behind what was delivered with ARCHIVE_RETRY and keeps the block, so
+					 * every further call answers the same (each call returns at once; it is the
+					 * unbounded retry loop that would not end) */
+					if (n < 0) { ds = (int)n; if (!status_ok(ds)) flags |= 4; if (n == ARCHIVE_RETRY && ++retries < MAX_RETRIES) continue; break; }
+					retries = 0;
 					if (n == 0) break;
 					if ((size_t)n > ask) { flags |= 1; break; }
 					for (k = 0; k < (size_t)n; k++) { h ^= buf[k]; h *= 1099511628211ULL; }
@@ -332,7 +338,8 @@ static void run_case(val *c)
 					ds = archive_read_data_block(a, &p, &n, &off);
 					if (!status_ok(ds)) flags |= 4;
 					if (ds == ARCHIVE_EOF) { ds = ARCHIVE_OK; break; }
-					if (ds == ARCHIVE_RETRY) continue;
+					if (ds == ARCHIVE_RETRY) { if (++retries < MAX_RETRIES) continue; break; }
+					retries = 0;
 					if (ds < ARCHIVE_WARN) break;
 					if (n > 0) {
 						const unsigned char *q = p;
